@@ -150,7 +150,8 @@ def run(ctx):
     gdef = [grammar_defects(rng) for _ in range(10 if quick else 120)]
     texts += gdef
     texts += [bad_patterns(rng) for _ in range(8 if quick else 100)]
-    texts += [synth_conflict(rng) for _ in range(12 if quick else 150)]
+    synth = [LALRSYN] + [synth_conflict(rng) for _ in range(20 if quick else 150)]
+    texts += synth[1:]
     texts += [c03.gen_defs(rng) for _ in range(40 if quick else 600)]
     texts += [c08.gen_spec(rng) for _ in range(30 if quick else 400)]
     for tree, text, defects in sc.gen_cases(ctx, 60 if quick else 800, defect_rate=0.6):
@@ -163,6 +164,8 @@ def run(ctx):
             return 40
         if t in gdef:
             return 12
+        if t in synth:
+            return 24          # state that survives a run only sometimes (a pool emptied by the collector) needs more tries
         return 60 if ("[z-a/" in t or "(/" in t or "[/" in t or "{3,1}" in t or "[z-a]" in t or "{5,2}" in t or "[9-0]" in t or "{2,1}" in t or "[b-a]" in t or "{9,8}" in t) else nin
     res = ctx.run_impl_par("det", ["%s %d" % (hx(t.encode()), reps(t)) for t in texts], nproc=8, timeout=1500, isolate=True)
     stats = {"specifications": len(texts), "in_process_runs": len(texts) * nin, "process_runs": 0, "generated": 0, "rejected": 0, "skipped_known_crash": 0}
